@@ -4,5 +4,5 @@ CONSTANTS
   DevAvg = FALSE
   DevArr = FALSE
   DevStale = TRUE
-INVARIANTS LengthInv StepOK
+INVARIANTS LengthInv StepOKModKnown
 CHECK_DEADLOCK FALSE
